@@ -37,7 +37,7 @@ def epochs(ds, salt, n_epochs=EPOCHS):
     out = []
     for e in range(n_epochs):
         np.random.seed(1000 * salt + e)  # adversarial global state: differs between the runs that are compared
-        got, exc, _ = observe.take(lambda: ds, 500)
+        got, exc, _ = observe.take(lambda: ds, 50000)
         if exc is not None:
             raise Violation('iteration-raised', observe.describe_exc(exc))
         out.append(got)
